@@ -8,6 +8,7 @@ import (
 	"io"
 	"net/http"
 	"strconv"
+	"sync"
 	"time"
 
 	"github.com/vulcand/oxy/v2/internal/holsterv4/clock"
@@ -21,6 +22,7 @@ type Tracer struct {
 	reqHeaders  []string
 	respHeaders []string
 	writer      io.Writer
+	writerLock  sync.Mutex
 
 	log utils.Logger
 }
@@ -52,7 +54,10 @@ func (t *Tracer) ServeHTTP(w http.ResponseWriter, req *http.Request) {
 	t.next.ServeHTTP(pw, req)
 
 	l := t.newRecord(req, pw, clock.Since(start))
-	if err := json.NewEncoder(t.writer).Encode(l); err != nil {
+	t.writerLock.Lock()
+	err := json.NewEncoder(t.writer).Encode(l)
+	t.writerLock.Unlock()
+	if err != nil {
 		t.log.Error("Failed to marshal request: %v", err)
 	}
 }
